@@ -18,10 +18,11 @@ import (
 //
 //	name = P<p>W<w>N<n>/<waiter|poller>/<normal|block1|block2|err1|err2>/<close|noclose|fatal|fatal2|closeearly>
 type params struct {
-	P, W, N int
-	Mode    string // waiter | poller
-	Rec     string // normal | block1 | block2
-	End     string // close | noclose | fatal
+	P, W, N  int
+	Mode     string // waiter | poller
+	NilAlert bool   // NewWriter gets a nil alerter
+	Rec      string // normal | block1 | block2
+	End      string // close | noclose | fatal
 }
 
 func parseName(name string) (params, bool) {
@@ -34,11 +35,18 @@ func parseName(name string) (params, bool) {
 		return p, false
 	}
 	p.Mode, p.Rec, p.End = parts[1], parts[2], parts[3]
+	if strings.HasSuffix(p.Mode, "-na") { // no alerter given to NewWriter: drops are not reported to anyone
+		p.Mode, p.NilAlert = strings.TrimSuffix(p.Mode, "-na"), true
+	}
 	return p, true
 }
 
 func (p params) name() string {
-	return fmt.Sprintf("P%dW%dN%d/%s/%s/%s", p.P, p.W, p.N, p.Mode, p.Rec, p.End)
+	mode := p.Mode
+	if p.NilAlert {
+		mode += "-na"
+	}
+	return fmt.Sprintf("P%dW%dN%d/%s/%s/%s", p.P, p.W, p.N, mode, p.Rec, p.End)
 }
 
 type inst struct {
@@ -137,7 +145,11 @@ func (in *inst) Body() {
 		interval = time.Millisecond
 	}
 	mcrt.DaemonNext = true
-	dw := diode.NewWriter(recWriter{in}, p.N, interval, func(missed int) { in.alerts = append(in.alerts, missed); in.bump(4+uint64(missed)*16, "") })
+	var alerter diode.Alerter = func(missed int) { in.alerts = append(in.alerts, missed); in.bump(4+uint64(missed)*16, "") }
+	if p.NilAlert {
+		alerter = nil
+	}
+	dw := diode.NewWriter(recWriter{in}, p.N, interval, alerter)
 	mcrt.DaemonNext = false
 	var logger zerolog.Logger
 	if p.End == "fatal" {
@@ -427,7 +439,7 @@ func (in *inst) Check(res *mcrt.Result) []explore.Violation {
 		holeSig = "diode-hole-stall"
 	}
 
-	blockedRec := p.Rec == "block1" || p.Rec == "block2"
+	blockedRec := p.Rec == "block1" || p.Rec == "block2" || p.NilAlert // (without an alerter the reported counts are unknown: the accounting clauses are not applied)
 	// ---- C11: after Close returned (or on the Fatal path at Exit) nothing is lost silently ----
 	closed := in.closeRet || ((p.End == "fatal" || p.End == "fatal2") && res.Exited)
 	if p.End == "fatal2" && res.Exited && len(in.deliveredB) != 1 {
